@@ -182,6 +182,7 @@ type NodeOpts struct {
 	Key         *ecdsa.PrivateKey
 	Boot        []*enode.Node
 	VersionsTTL time.Duration
+	NoStart     bool // the caller starts the protocol itself (e.g. through a sub-network's Start)
 }
 
 type Node struct {
@@ -257,8 +258,10 @@ func NewNode(s *Switch, o NodeOpts) (*Node, error) {
 	if err != nil {
 		return nil, err
 	}
-	if err := p.Start(); err != nil {
-		return nil, err
+	if !o.NoStart {
+		if err := p.Start(); err != nil {
+			return nil, err
+		}
 	}
 	return &Node{P: p, API: portalwire.NewPortalAPI(p), Store: st, Queue: q, D5: d5, Conn: conn, Addr: ap, Key: key, LN: ln}, nil
 }
